@@ -56,7 +56,8 @@ func blockhashCode() []byte {
 }
 
 func runMiner(c *fw.Ctx) {
-	nBlocks := c.Pick(8, 40)
+	runLateStart(c)
+	nBlocks := c.Pick(11, 40)
 	cfgName := []string{"versions-2-3-4", "test-hf1to7"}[c.Batch%2]
 	id := "mined-chain"
 	c.Case(id, map[string]interface{}{"config": cfgName, "blocks_wanted": nBlocks, "note": "mined blocks are written to the child log (NOTE mined ...) before they are re-imported"}, func() {
@@ -131,7 +132,19 @@ func runMiner(c *fw.Ctx) {
 				c.Count("miner_blocks_mined")
 				// now and then offer a sibling of the fresh block to the mining node so
 				// the worker has an uncle candidate
-				if len(mined)%3 == 1 && b.NumberU64() > 1 {
+				if len(mined) == 1 {
+					// a burst of distinct siblings of the first mined block: the worker
+					// takes one uncle per block, so the burst is consumed at depths
+					// 1,2,..,6 and the next candidate reaches the edge of the uncle
+					// window (depth 7: its parent is the 8th ancestor) where the worker
+					// must drop it
+					for k := 1; k <= 9; k++ {
+						if _, err := bc.InsertChain(types.Blocks{siblingN(b, k)}); err == nil {
+							sidesOffered++
+							c.Count("miner_sibling_burst_offered")
+						}
+					}
+				} else if len(mined)%3 == 1 && b.NumberU64() > 1 {
 					s := sibling(b)
 					if _, err := bc.InsertChain(types.Blocks{s}); err == nil {
 						sidesOffered++
@@ -169,6 +182,9 @@ func runMiner(c *fw.Ctx) {
 		for _, b := range canon {
 			nTx += len(b.Transactions())
 			nUncle += len(b.Uncles())
+			for _, u := range b.Uncles() {
+				c.Count(fmt.Sprintf("miner_uncle_included_at_depth:%d", b.NumberU64()-u.Number.Uint64()))
+			}
 			for _, tx := range b.Transactions() {
 				if tx.To() != nil && *tx.To() == addrBlockhash {
 					nBH++
@@ -236,4 +252,171 @@ func runMiner(c *fw.Ctx) {
 		}
 		bc.Stop()
 	})
+}
+
+// siblingN: the k-th distinct valid sibling of b (extra-data differs).
+func siblingN(b *types.Block, k int) *types.Block {
+	h := b.Header()
+	e := append([]byte{}, h.Extra...)
+	if len(e) >= 32 {
+		e[31] ^= byte(k)
+		e[30] ^= 0xa5
+	} else {
+		e = append(e, byte(0x80+k))
+	}
+	h.Extra = e
+	return rebuild(h, b.Transactions(), b.Uncles())
+}
+
+type miningNode struct {
+	db   *aquadb.MemDatabase
+	bc   *core.BlockChain
+	pool *core.TxPool
+	mux  *aevent.TypeMux
+	m    *miner.Miner
+}
+
+func newMiningNode(w *gen.World) *miningNode {
+	db, _ := w.NewDB()
+	bc, err := w.NewChain(db, nil)
+	if err != nil {
+		panic(err)
+	}
+	poolCfg := core.DefaultTxPoolConfig
+	poolCfg.Journal = ""
+	pool := core.NewTxPool(poolCfg, w.Config, bc)
+	mux := new(aevent.TypeMux)
+	m := miner.New(&minerBackend{bc: bc, pool: pool, db: db, am: accounts.NewManager()}, w.Config, mux, w.Faker())
+	return &miningNode{db: db, bc: bc, pool: pool, mux: mux, m: m}
+}
+
+func (n *miningNode) stop() {
+	n.m.Stop()
+	n.pool.Stop()
+	n.bc.Stop()
+}
+
+// lateStartDepths: uncle depth (height of the block to be mined minus height of
+// the remembered side block). 2 and 6 are inside the window the import path
+// accepts (the uncle's parent is the 2nd / 7th ancestor), 7 and 8 are outside
+// (parent = 8th / 9th ancestor): whatever the worker does with such a candidate,
+// the block it seals must pass its own import path.
+var lateStartDepths = []int{2, 6, 7, 8}
+
+// runLateStart: a node follows k builder-made blocks it did not mine and sees one
+// competing block at a chosen height while its miner is idle (the side block
+// reaches worker.possibleUncles through ChainSideEvent); then the miner is
+// started. The first block it seals is given to an independent node that knows
+// the same blocks.
+func runLateStart(c *fw.Ctx) {
+	cfgName := []string{"versions-2-3-4", "test-hf1to7"}[c.Batch%2]
+	reps := c.Pick(1, 4)
+	for rep := 0; rep < reps; rep++ {
+		for _, depth := range lateStartDepths {
+			w, r := newWorld(c, cfgName, "latestart", fmt.Sprint(rep), fmt.Sprint(depth))
+			k := depth + r.Intn(3) // blocks followed while idle
+			h := k + 1 - depth     // height of the competing block
+			id := fmt.Sprintf("late-start-%d-depth-%d", rep, depth)
+			c.Case(id, map[string]interface{}{"config": cfgName, "followed_blocks": k, "side_block_height": h, "uncle_depth_for_next_block": depth,
+				"note": "the sealed block is written to the child log (NOTE mined ...) before it is re-imported"}, func() {
+				mrand.Seed(int64(c.Seed)*31 + int64(rep*10+depth))
+				t := gen.NewTree(w)
+				var main []*types.Block
+				parent := t.Genesis
+				for i := 0; i < k; i++ {
+					b := t.Add(r, parent, gen.BlockPlan{Coinbase: w.Coinbases[1], Kinds: gen.RandomKinds(r, r.Intn(4))})
+					main = append(main, b.Block)
+					parent = b.Block
+				}
+				sideParent := t.Genesis
+				if h > 1 {
+					sideParent = main[h-2]
+				}
+				side := t.Add(r, sideParent, gen.BlockPlan{Coinbase: w.Coinbases[2], Extra: []byte("competitor"), Kinds: gen.RandomKinds(r, r.Intn(2))}).Block
+
+				n := newMiningNode(w)
+				defer n.stop()
+				if _, err := n.bc.InsertChain(types.Blocks(main)); err != nil {
+					c.Violate("valid_block_rejected", "InsertChain", errClass(err), fmt.Sprintf("mining node (idle): import of %d builder blocks: %v", k, err))
+					return
+				}
+				// the idle worker has prepared work on top of block k
+				deadline := time.Now().Add(20 * time.Minute)
+				for n.m.PendingBlock().NumberU64() != uint64(k+1) {
+					if time.Now().After(deadline) {
+						c.Inconclusive("late_start_pending_work_watchdog")
+						return
+					}
+					time.Sleep(5 * time.Millisecond)
+				}
+				// the competitor arrives after the chain has passed it: a side block
+				if _, err := n.bc.InsertChain(types.Blocks{side}); err != nil {
+					c.Violate("valid_block_rejected", "InsertChain", errClass(err), fmt.Sprintf("mining node (idle): import of the side block at height %d: %v", h, err))
+					return
+				}
+				if n.bc.CurrentBlock().Hash() != main[k-1].Hash() {
+					c.Count("late_start_side_block_became_head")
+					return
+				}
+				c.Count(fmt.Sprintf("miner_uncle_candidate_at_depth:%d", depth))
+				// the event is in the worker's channel; let its loop take it (no verdict
+				// depends on this pause: a missed candidate only shows in the gate counters)
+				time.Sleep(1500 * time.Millisecond)
+				sub := n.mux.Subscribe(core.NewMinedBlockEvent{})
+				defer sub.Unsubscribe()
+				n.m.SetExtra([]byte("c01-late"))
+				n.m.Start(w.Coinbases[0])
+				var mined *types.Block
+				select {
+				case ev := <-sub.Chan():
+					if ev != nil {
+						mined = ev.Data.(core.NewMinedBlockEvent).Block
+					}
+				case <-time.After(20 * time.Minute):
+				}
+				n.m.Stop()
+				if mined == nil {
+					c.Inconclusive("late_start_mining_watchdog")
+					return
+				}
+				enc, _ := rlp.EncodeToBytes(mined)
+				c.Note("mined %d %s", mined.NumberU64(), hex.EncodeToString(enc))
+				c.Count("miner_late_start_blocks_mined")
+				included := false
+				for _, u := range mined.Uncles() {
+					c.Count(fmt.Sprintf("miner_uncle_included_at_depth:%d", mined.NumberU64()-u.Number.Uint64()))
+					if u.Number.Uint64() == uint64(h) {
+						included = true
+					}
+				}
+				if included {
+					c.Count(fmt.Sprintf("miner_late_start_uncle_included_at_depth:%d", depth))
+				}
+				// an independent node with the same view imports the sealed block
+				imp := newReplica(c, "late-start-importer", w, nil)
+				defer imp.stop()
+				if !mustImport(c, imp, main, "late-start importer") || !mustImport(c, imp, []*types.Block{side}, "late-start importer (side block)") {
+					return
+				}
+				idx, err := imp.insert(types.Blocks{rlpCopy(w, mined)}, "InsertChain")
+				if err != nil {
+					c.Violate("valid_block_rejected", "InsertChain", "miner_block:"+errClass(err), fmt.Sprintf("late start: node followed %d blocks, saw a competitor at height %d, then sealed block %d with %d uncle(s) (competitor included: %v); InsertChain on an independent node = (%d, %v)",
+						k, h, mined.NumberU64(), len(mined.Uncles()), included, idx, err))
+					return
+				}
+				c.Count("mined_blocks_reimported")
+				// what the mining node stored for its own block equals what the importer computed
+				agree := newAgreement(c)
+				mn := &replica{c: c, name: "mining-node", w: w, db: n.db, bc: n.bc, digestEvery: 1}
+				o := mn.observe(mined, 0, true, "miner.WriteBlockWithState")
+				agree.add(&o)
+				for i := range imp.log {
+					for j := range imp.log[i].Obs {
+						agree.add(&imp.log[i].Obs[j])
+					}
+				}
+				c.Nontrivial(fmt.Sprintf("late-%x", mined.Hash()))
+			})
+		}
+	}
 }
